@@ -891,7 +891,11 @@ class Emitter:
                 raise Unsupported(f'line {e[-1]}: unsupported assignment target')
             if sink[0] == 'return':
                 self.w('return None')
-        elif k == 'macro' and e[1] in ('panic', 'unimplemented', 'assert', 'assert_eq', 'unreachable', 'todo'):
+        elif k == 'macro' and e[1] in ('debug_assert', 'debug_assert_eq', 'debug_assert_ne'):
+            # release semantics (the binary the encoding is validated against is built with -O, as a deployed checker is):
+            # a debug assertion is not a check
+            self.w('pass')
+        elif k == 'macro' and e[1] in ('panic', 'unimplemented', 'assert', 'assert_eq', 'assert_ne', 'unreachable', 'todo'):
             self.emit_panic_macro(e)
         elif k == 'call' and self.refmut_call(e):
             self.emit_refmut_call(e, sink)
@@ -911,6 +915,9 @@ class Emitter:
             self.w(f'    raise Panic({site!r}, {msg})' if msg else f'    raise Panic({site!r})')
         elif name == 'assert_eq':
             self.w(f'if not ({self.expr(args[0])} == {self.expr(args[1])}):')
+            self.w(f'    raise Panic({site!r})')
+        elif name == 'assert_ne':
+            self.w(f'if ({self.expr(args[0])} == {self.expr(args[1])}):')
             self.w(f'    raise Panic({site!r})')
         else:
             self.w(f'raise Panic({site!r}, {msg})' if msg else f'raise Panic({site!r})')
